@@ -12,8 +12,8 @@ LEAVES = {"X": ("a", "b", "v"), "Y": ("a", "b", "v"), "Z": ("a", "d"), "I": (),
           # the two frozensets iterate in different orders (UNION is positional)
           "P": ("a", "i"), "Q": ("i", "a")}  # I: the engine's join-identity relation
 # W: a leaf whose table - and payload.columns_available - offers a column (b) that the relation itself does not have
-LEAVES["W"] = ("a", "d")
-TABLE_EXTRA = {"W": ("b",)}
+LEAVES["Wx"] = ("a", "d")
+TABLE_EXTRA = {"Wx": ("b",)}
 LEAFCOLS = dict(LEAVES)
 from . import prog as _prog
 _prog.DECLARED_COLS.update({k: LEAVES[k] for k in TABLE_EXTRA})
@@ -207,7 +207,7 @@ def nested_programs(tier, hi):
               ("slice", ("calc", ("proj", ("sort", X, ((B, True), (A, True), (V, True))), ("a", "b")), "v", ("neg", A)), 0, 1),
               ("calc", ("proj", ("sort", ("sel", X, K), ((V, False),)), ("a",)), "b", ("add", A, A))]
     # a join partner whose payload offers a column (b) it does not expose: every output column comes from an operand exposing it
-    Wd = ("leaf", "W")
+    Wd = ("leaf", "Wx")
     progs += [("join", X, Wd, None), ("join", Wd, X, None), ("join", X, ("sel", Wd, K), ("lt", B, D)), ("dedup", ("join", ("proj", X, ("a", "b")), Wd, None)),
               ("chain", ("proj", ("join", X, Wd, None), ("a", "b", "v")), Y), ("join", Wd, W, None), ("join", ("join", X, Z, None), Wd, None),
               ("sel", ("join", Wd, X, None), ("lt", B, D)), ("slice", ("sort", ("join", X, Wd, None), ((A, True), (B, True), (V, True), (D, False))), 0, 2)]
@@ -321,7 +321,7 @@ BATTERY = {
     "X": [{"a": 1, "b": 1, "v": 5}, {"a": 1, "b": 2, "v": 5}, {"a": 2, "b": 1, "v": 7}, {"a": 1, "b": 1, "v": 5}],
     "Y": [{"a": 1, "b": 1, "v": 5}, {"a": 2, "b": 2, "v": 7}, {"a": 3, "b": 1, "v": 9}],
     "Z": [{"a": 1, "d": 2}, {"a": 2, "d": 1}, {"a": 1, "d": 3}, {"a": 4, "d": 0}],
-    "W": [{"a": 1, "d": 2, "b": 8}, {"a": 2, "d": 1, "b": 9}, {"a": 1, "d": 3, "b": 7}],
+    "Wx": [{"a": 1, "d": 2, "b": 8}, {"a": 2, "d": 1, "b": 9}, {"a": 1, "d": 3, "b": 7}],
     "P": [{"a": 1, "i": 10}, {"a": 2, "i": 20}],
     "Q": [{"a": 3, "i": 30}, {"a": 1, "i": 10}],
 }
